@@ -87,7 +87,7 @@ Proof.
   assert (HtD : all_tagged D) by (eapply decorated_tagged; eassumption).
   pose proof (cf_structure payload mrg (fillp NO) tf xs ys F D Htf Hs HF HA) as HS.
   destruct (cf tf (xs ++ ys)) as [G|e] eqn:EG; [|rewrite HS; reflexivity].
-  destruct HS as (K & K0 & T & restD & restF & EDk & EFk & HK & EGs & EM).
+  destruct HS as (K & K0 & T & restD & restF & EDk & EFk & HK & EGs & EM & _).
   rewrite EM. cbn [bind]. eexists. split; [reflexivity|].
   assert (HpG : pristine G) by (eapply cf_pristine; [exact Htf|exact Hs|exact Hp|exact EG]).
   rewrite EGs in HpG. apply Forall_app in HpG. destruct HpG as [HpK0 HpT].
